@@ -1,6 +1,6 @@
 // Package fqlrun compiles and runs FQL text against /repo with the harness'
 // instrumented library (the Go side of the functions modelled in
-// coq/theories/Eval.v: T, ARR, FAIL, PANIC_S, PANIC_E, PANIC_O, CANCEL, CLOSER)
+// coq/theories/Eval.v: T, ARR, FAIL, PANIC_S, PANIC_E, PANIC_O, PANIC_N, CANCEL, CLOSER)
 // and projects the outcome to what the checks compare.
 package fqlrun
 
@@ -39,7 +39,7 @@ type Session struct {
 	Calls    int
 	CancelAt int // cancel the context inside the k-th call (0-based); -1 = never
 	FailAt   int // the k-th call fails instead of running; -1 = never
-	FailKind int // 0 error, 1 panic(string), 2 panic(error), 3 panic(other)
+	FailKind int // 0 error, 1 panic(string), 2 panic(error), 3 panic(other), 4 panic(nil)
 	cancel   context.CancelFunc
 }
 
@@ -123,6 +123,9 @@ func enter(ctx context.Context, name string, args []core.Value) *Session {
 			panic("harness: injected string panic")
 		case 2:
 			panic(errors.New("harness: injected error panic"))
+		case 4:
+			var nothing interface{}
+			panic(nothing) // panic(nil): recover() returns nil under go.mod's "go 1.18" semantics
 		default:
 			panic(otherPanic{2})
 		}
@@ -136,16 +139,21 @@ type injectedError struct{}
 func Register(c *compiler.Compiler) {
 	reg := func(name string, fn core.Function) {
 		wrapped := func(ctx context.Context, args ...core.Value) (out core.Value, err error) {
+			returned := false
 			defer func() {
-				if r := recover(); r != nil {
-					if _, ok := r.(injectedError); ok {
-						out, err = values.None, errors.New("harness: injected error")
-						return
-					}
-					panic(r)
+				r := recover()
+				if r == nil && returned {
+					return
 				}
+				if _, ok := r.(injectedError); ok {
+					out, err = values.None, errors.New("harness: injected error")
+					return
+				}
+				panic(r) // also a nil panic value (recover() gave nil although fn did not return)
 			}()
-			return fn(ctx, args...)
+			out, err = fn(ctx, args...)
+			returned = true
+			return out, err
 		}
 		if err := c.RegisterFunction(name, wrapped); err != nil {
 			panic(err)
@@ -181,6 +189,11 @@ func Register(c *compiler.Compiler) {
 	reg("PANIC_O", func(ctx context.Context, args ...core.Value) (core.Value, error) {
 		enter(ctx, "PANIC_O", args)
 		panic(otherPanic{1})
+	})
+	reg("PANIC_N", func(ctx context.Context, args ...core.Value) (core.Value, error) {
+		enter(ctx, "PANIC_N", args)
+		var nothing interface{}
+		panic(nothing)
 	})
 	reg("CANCEL", func(ctx context.Context, args ...core.Value) (core.Value, error) {
 		s := enter(ctx, "CANCEL", args)
